@@ -34,6 +34,10 @@ const (
 	// (ii) nominal recovery window max(breaker timeout, unhealthy window)+3 s; decided by an 8 s watchdog
 	recoveryNominal  = (max(cbTimeout, unhealthyFor) + 3) * time.Second
 	recoveryWatchdog = 8 * time.Second
+	// (ii, roles swapped) the recovered backend must have served swapNeed requests within the time the
+	// configuration documents for it to come back (Cfg.comeBack: 0-2 s) plus a generous scheduling allowance
+	swapAllowance = 8 * time.Second
+	swapNeed      = 3
 	// (iii) gauges back at 0 / (iv) fd count back: poll windows
 	gaugeWindow = 3 * time.Second
 	fdWindow    = time.Duration(tBackendIdle)*time.Second + 3*time.Second
@@ -132,6 +136,21 @@ func wsAccept(key string) string {
 
 var postBody = noise(2000)
 
+// gate synchronises the requests of a burst: every client opens its connection and waits; when all have
+// arrived the gate opens and all write their request at the same instant.
+type gate struct {
+	ready sync.WaitGroup
+	start chan struct{}
+}
+
+func newGate(n int) *gate {
+	g := &gate{start: make(chan struct{})}
+	g.ready.Add(n)
+	return g
+}
+
+func (g *gate) open() { g.ready.Wait(); close(g.start) }
+
 // reqShape is the wire form of one client request (request kind x position k in the burst).
 type reqShape struct {
 	kind    string
@@ -142,6 +161,7 @@ type reqShape struct {
 	expect  bool   // Expect: 100-continue
 	wait100 bool   // ... and the client waits up to 1.5 s for the interim response before it sends the body
 	upgrade string // protocol the request asks to switch to ("" = none)
+	gate    *gate  // non-nil: wait here with the connection open until the whole burst is ready
 }
 
 func shapeOf(kind string, k int) reqShape {
@@ -184,10 +204,18 @@ func closedOutcome(start time.Time, what string, err error) outcome {
 func exchange(addr, id, xff string, sh reqShape, acceptGzip bool, limit time.Duration, mode callMode) outcome {
 	start := time.Now()
 	c, o := dial(addr, start, limit)
+	if sh.gate != nil {
+		sh.gate.ready.Done()
+	}
 	if o != nil {
 		return *o
 	}
 	defer reset(c)
+	if sh.gate != nil {
+		<-sh.gate.start
+		start = time.Now() // the call begins when the request is written
+		_ = c.SetDeadline(start.Add(limit))
+	}
 	extra, body, declared := sh.extra, sh.body, len(sh.body)
 	if acceptGzip {
 		extra += "Accept-Encoding: gzip\r\n"
@@ -673,9 +701,20 @@ type stepOpt struct {
 }
 
 func (w *world) runStepOpt(run, idx int, s Step, opt stepOpt) (string, []outcome) {
-	n := s.requests()
+	// base requests carry the fault; requests base..n-1 are answered well by both backends
+	base := s.requests()
 	if opt.n > 0 {
-		n = opt.n
+		base = opt.n
+	}
+	n := base
+	var g *gate
+	switch {
+	case s.Fault == GoodBurst:
+		base, n = 0, s.Concurrent
+		g = newGate(n)
+	case s.Concurrent > 0 && s.Good > 0 && opt.n == 0:
+		n = base + s.Good
+		g = newGate(n)
 	}
 	opt.both = opt.both || s.Both
 	type reg struct {
@@ -689,6 +728,12 @@ func (w *world) runStepOpt(run, idx int, s Step, opt stepOpt) (string, []outcome
 	for k := range regs {
 		id := w.nextID()
 		shapes[k] = shapeOf(s.Kind, k)
+		shapes[k].gate = g
+		if k >= base {
+			gs, fs := wellBehaved("good", "", shapes[k], k), wellBehaved("faulty", "", shapes[k], k)
+			regs[k] = reg{id, w.good.Expect(id, gs), w.faulty.Expect(id, fs), gs, fs}
+			continue
+		}
 		if s.Fault == "client-abort-upload" && shapes[k].body == nil {
 			shapes[k].chunked = k%2 == 1
 		}
@@ -707,19 +752,31 @@ func (w *world) runStepOpt(run, idx int, s Step, opt stepOpt) (string, []outcome
 		regs[k] = reg{id, w.good.Expect(id, gs), w.faulty.Expect(id, fs), gs, fs}
 	}
 	faultyBefore, goodBefore := w.faulty.Accepts(), w.good.Accepts()
+	stepStart := time.Now()
+	held := s.HealthToo && probeFault(s.Fault)
 	if s.Fault == "refuse" {
 		w.faulty.Refuse(true)
 		if opt.both {
 			w.good.Refuse(true)
 		}
+	} else if held {
+		// everything FAULTY receives without a script of its own - the active probes of its health endpoint,
+		// requests the proxy's transport re-sends - meets the same fault while the step lasts
+		fb := faultScript(s.Fault, 0, false, s.Framing)
+		w.faulty.Fallback(fb)
+		if opt.both {
+			w.good.Fallback(fb)
+		}
 	}
 	outs := make([]outcome, n)
 	call := func(k int) {
 		xff := w.pickXFF(k)
-		switch s.Fault {
-		case "client-abort-upload":
+		switch {
+		case k >= base:
+			outs[k] = exchange(w.proxy, regs[k].id, xff, shapes[k], (k/2)%2 == 0, wedgeAfter, complete)
+		case s.Fault == "client-abort-upload":
 			outs[k] = exchange(w.proxy, regs[k].id, xff, shapes[k], false, wedgeAfter, abortUpload)
-		case "client-abort-download":
+		case s.Fault == "client-abort-download":
 			outs[k] = exchange(w.proxy, regs[k].id, xff, shapes[k], true, wedgeAfter, abortDownload)
 		default:
 			// requests 0, 1, 4, 5 of a burst accept gzip (so that under every strategy FAULTY sees both variants)
@@ -732,6 +789,9 @@ func (w *world) runStepOpt(run, idx int, s Step, opt stepOpt) (string, []outcome
 			wg.Add(1)
 			go func(k int) { defer wg.Done(); call(k) }(k)
 		}
+		if g != nil {
+			g.open() // every client has its connection open (or has failed to connect): all write now
+		}
 		wg.Wait()
 	} else {
 		for k := 0; k < n; k++ {
@@ -742,17 +802,27 @@ func (w *world) runStepOpt(run, idx int, s Step, opt stepOpt) (string, []outcome
 			}
 		}
 	}
+	if held {
+		// the faulty state lasts longer than the active-check interval: at least one probe tick falls into it
+		time.Sleep(time.Until(stepStart.Add(probeHoldMs * time.Millisecond)))
+		w.faulty.Fallback(okScript("faulty"))
+		w.good.Fallback(okScript("good"))
+		w.label("fault-held-across-a-probe-tick:" + s.Fault)
+	}
 	w.lastFault = time.Now()
 	if s.Fault == "refuse" {
 		w.faulty.Refuse(false)
 		w.good.Refuse(false)
 	}
 	delivered := false
-	for _, r := range regs {
+	for k, r := range regs {
 		lab.CloseBarrier(r.exFault) // releases a stalled slow-body
 		lab.CloseBarrier(r.exGood)
-		if lab.SeenOf(r.exFault) != nil || ((abortFault(s.Fault) || opt.both) && lab.SeenOf(r.exGood) != nil) {
+		if k < base && (lab.SeenOf(r.exFault) != nil || ((abortFault(s.Fault) || opt.both) && lab.SeenOf(r.exGood) != nil)) {
 			delivered = true
+		}
+		if k >= base && lab.SeenOf(r.exFault) != nil {
+			w.label("well-behaved-request-answered-by-FAULTY-inside-a-burst")
 		}
 		w.good.Forget(r.id)
 		w.faulty.Forget(r.id)
@@ -760,15 +830,32 @@ func (w *world) runStepOpt(run, idx int, s Step, opt stepOpt) (string, []outcome
 	if s.Fault == "refuse" && (w.faulty.Accepts() > faultyBefore || (opt.both && w.good.Accepts() > goodBefore)) {
 		delivered = true // a new connection was reset on accept
 	}
-	if opt.quiet {
+	switch {
+	case s.Fault == GoodBurst:
+		ok := 0
+		for _, o := range outs {
+			if o.Status == 200 || o.Status == 101 {
+				ok++
+			}
+		}
+		w.label("good-burst")
+		if ok == len(outs) {
+			w.label("good-burst:all-succeeded")
+		} else if ok > 0 {
+			w.label("good-burst:some-succeeded")
+		}
+	case opt.quiet:
 		// not part of the fault under test
-	} else if delivered {
+	case delivered:
 		w.label("delivered:" + s.Fault)
 		if run == 1 {
 			w.delivered++
 		}
-	} else {
+	default:
 		w.label("not-delivered:" + s.Fault)
+	}
+	if s.Good > 0 && g != nil {
+		w.label("mixed-burst")
 	}
 	where := fmt.Sprintf("run %d step %d (%s)", run, idx, s)
 	bound := w.c.Cfg.endBound()
@@ -793,7 +880,7 @@ func (w *world) runStepOpt(run, idx int, s Step, opt stepOpt) (string, []outcome
 		// it really is one: the complete body of a response a backend was scripted to give to this request
 		// (GOOD's answer, FAULTY's where its script runs to the end, or the small 200 both backends give to a
 		// request the proxy's transport re-sent). Client-abort steps: the client is the one that leaves.
-		if abortFault(s.Fault) || o.method == "HEAD" {
+		if (abortFault(s.Fault) && k < base) || o.method == "HEAD" {
 			continue
 		}
 		if o.Framed == "close" && o.Status >= 200 && o.Status <= 299 {
@@ -921,7 +1008,18 @@ func (w *world) hammer(run int, c Case) string {
 	// every connection beyond MaxIdleConnsPerHost=10 right after use; at 16-64 concurrent requests
 	// that leaves tens of thousands of sockets in TIME_WAIT on ephemeral ports and the labs of this
 	// machine can no longer bind a listener - a harness resource problem, not a property of C03.)
-	w.faulty.Fallback(&lab.RespScript{Status: 500, Framing: "close", Body: []byte("faulty-backend boom"), BarrierAfter: -1, Header: textPlain})
+	boom := &lab.RespScript{Status: 500, Framing: "close", Body: []byte("faulty-backend boom"), BarrierAfter: -1, Header: textPlain}
+	flaky := c.Kind == "flaky-load" && c.FlakyOneIn > 1
+	if flaky {
+		// FLAKY instead of dead: one request in FlakyOneIn (by client number + request number) carries the 5xx
+		// script, every other request - and every health probe - is answered 200
+		fs := okScript("faulty")
+		fs.Framing = "close"
+		w.faulty.Fallback(fs)
+	} else {
+		w.faulty.Fallback(boom)
+	}
+	faultyBefore := w.faulty.Received()
 	gs := okScript("good")
 	gs.Framing = "close"
 	w.good.Fallback(gs)
@@ -966,7 +1064,12 @@ func (w *world) hammer(run int, c Case) string {
 		start := time.Now()
 		_ = cl.conn.SetDeadline(start.Add(wedgeAfter))
 		cl.n++
-		_, err := cl.conn.Write([]byte(head("GET", fmt.Sprintf("h%d-%d-%d", run, cl.g, cl.n), cl.xff, "")))
+		id := fmt.Sprintf("h%d-%d-%d", run, cl.g, cl.n)
+		if flaky && (cl.g+cl.n)%c.FlakyOneIn == 0 {
+			w.faulty.Expect(id, boom)
+			defer w.faulty.Forget(id) // Helios may have picked GOOD
+		}
+		_, err := cl.conn.Write([]byte(head("GET", id, cl.xff, "")))
 		var resp *http.Response
 		if err == nil {
 			resp, err = http.ReadResponse(cl.br, &http.Request{Method: "GET"})
@@ -1079,7 +1182,22 @@ func (w *world) hammer(run int, c Case) string {
 	if run == 1 && counts[500] > 0 {
 		w.delivered = 1
 	}
+	if flaky && w.faulty.Received()-faultyBefore > counts[500] && counts[500] > 0 {
+		w.label("flaky:5xx-and-200-from-the-same-backend")
+	}
 	return ""
+}
+
+// probeFailures counts the failed active probes of the backend entries whose name starts with prefix in
+// the helios log ("health check failed" = no response, "health check returned non-ok status").
+func probeFailures(log, prefix string) int {
+	n := 0
+	for _, line := range strings.Split(log, "\n") {
+		if strings.Contains(line, `"backend":"`+prefix) && (strings.Contains(line, `"message":"health check failed"`) || strings.Contains(line, `"message":"health check returned non-ok status"`)) {
+			n++
+		}
+	}
+	return n
 }
 
 // gaugesZero is clause (iii, second half): GET /v1/backends shows every active_connections at 0 (polled up to 3 s).
@@ -1187,6 +1305,94 @@ func (w *world) recovery(run int) string {
 		}
 		if ex, code := w.h.Exited(); ex {
 			return fmt.Sprintf("(iii) crashed: helios exited with code %d during the recovery probes of run %d", code, run)
+		}
+		time.Sleep(40 * time.Millisecond)
+	}
+}
+
+// recoverySwapped is clause (ii) with the roles swapped: since the end of the fault sequence FAULTY answers
+// 200 to every request and every health probe; now the backend that was GOOD throughout goes away (new
+// connections are reset on accept, requests and probes arriving on pooled connections are reset). "A
+// request to a healthy backend succeeds normally" can only be satisfied through the backend that
+// misbehaved: within the time the configuration documents for it to come back (Cfg.comeBack) plus
+// swapAllowance, swapNeed requests must have been answered 200 by it. Helios chooses the backend, the
+// refusing one produces 502s that may keep opening the breaker, and without health checks nothing ejects
+// it - so neither a run of consecutive successes is demanded nor, when the proxy itself reports the
+// recovered backend as healthy, that it was chosen (class recovered-backend-not-chosen, no verdict). The
+// verdict "permanently degraded" needs the proxy's own statement: /v1/backends has reported the recovered
+// backend as ejected without interruption for the whole allowance.
+func (w *world) recoverySwapped(run int) string {
+	start := w.lastFault
+	limit := w.c.Cfg.comeBack() + swapAllowance
+	gone := &lab.RespScript{Status: 200, Framing: "cl", BarrierAfter: -1, Fault: "reset-before-headers"}
+	w.good.Refuse(true)
+	w.good.Fallback(gone)
+	defer func() {
+		w.good.Refuse(false)
+		w.good.Fallback(okScript("good"))
+		w.lastFault = time.Now() // GOOD refused connections until now: the ordinary recovery window starts here
+	}()
+	var history []string
+	served, asked := 0, 0
+	var ejectedSince time.Time // start of the current uninterrupted run of polls that report the recovered backend as ejected
+	lastReport := ""
+	for {
+		id := w.nextID()
+		n := atomic.LoadInt64(&w.seq)
+		w.good.Expect(id, gone)
+		ex := w.faulty.Expect(id, okScript("faulty"))
+		o := get(w.proxy, id, fmt.Sprintf("10.78.%d.%d", (n/250)%250, n%250+1), false)
+		reached := lab.SeenOf(ex) != nil
+		w.good.Forget(id)
+		w.faulty.Forget(id)
+		since := time.Since(start)
+		history = append(history, fmt.Sprintf("+%v: %v", since.Round(time.Millisecond), o))
+		if !o.Ended {
+			return fmt.Sprintf("(ii) wedged: run %d recovery probe (roles swapped) had no end %v after it was sent; probes: %v", run, wedgeAfter, tailStrs(history, 12))
+		}
+		if reached {
+			asked++
+		}
+		if o.Status == 200 && o.Served == "faulty" {
+			if served++; served >= swapNeed {
+				w.label("recovered-backend-serves")
+				switch doc := w.c.Cfg.comeBack(); {
+				case since <= doc+time.Second:
+					w.label("recovered-backend-serves<=documented+1s")
+				case since <= doc+3*time.Second:
+					w.label("recovered-backend-serves<=documented+3s")
+				default:
+					w.label("recovered-backend-serves<=documented+8s")
+				}
+				return ""
+			}
+		}
+		if ex, code := w.h.Exited(); ex {
+			return fmt.Sprintf("(iii) crashed: helios exited with code %d during the recovery probes of run %d (roles swapped)", code, run)
+		}
+		bs, err := w.backends()
+		if err == nil {
+			ejected := false
+			for _, b := range bs {
+				ejected = ejected || (strings.HasPrefix(b.Name, "faulty") && !b.Healthy)
+			}
+			lastReport = fmt.Sprintf("%+v", bs)
+			switch {
+			case !ejected:
+				ejectedSince = time.Time{}
+			case ejectedSince.IsZero():
+				ejectedSince = time.Now()
+			}
+		}
+		if since > limit {
+			if !ejectedSince.IsZero() && time.Since(ejectedSince) >= swapAllowance {
+				return fmt.Sprintf("(ii) permanently degraded: run %d: the backend that misbehaved has answered 200 to every request and every health probe for %v, the other backend refuses connections; "+
+					"the configuration lets it come back after %v (passive window / probe timeout + probe ejection of %v / breaker timeout), but /v1/backends has reported it as ejected without interruption for the last %v and only %d of %d wanted requests were answered by it (%d reached it): %s; probes: %v",
+					run, since.Round(time.Millisecond), w.c.Cfg.comeBack(), w.c.Cfg.probeEjection(), time.Since(ejectedSince).Round(time.Millisecond), served, swapNeed, asked, lastReport, tailStrs(history, 10))
+			}
+			// reported healthy (or only just ejected again) but not chosen often enough: Helios's choice, no verdict
+			w.label("recovered-backend-not-chosen")
+			return ""
 		}
 		time.Sleep(40 * time.Millisecond)
 	}
@@ -1338,7 +1544,7 @@ var labSlots = make(chan struct{}, lab.Scale(40, 16))
 var burstSlots = make(chan struct{}, 1)
 
 func runOnce(t testing.TB, c Case) (res Result) {
-	if c.Kind == "window-expiry" {
+	if c.Kind == "window-expiry" || c.Kind == "flaky-load" {
 		burstSlots <- struct{}{}
 		defer func() { <-burstSlots }()
 	}
@@ -1358,6 +1564,9 @@ func runOnce(t testing.TB, c Case) (res Result) {
 		res.YAML = w.yaml
 		res.Log = w.h.Log()
 		res.Expiries = strings.Count(res.Log, `"message":"backend marked healthy"`)
+		if probeFailures(res.Log, "faulty") > 0 {
+			w.label("probe-failure-of-FAULTY-logged") // the proxy's own statement that an active probe of FAULTY failed
+		}
 		res.Log = tail(res.Log, 256<<10) // a concurrent burst logs tens of MB
 		res.Requests = w.requests
 		res.Volleys = w.volleys
@@ -1389,7 +1598,7 @@ func runOnce(t testing.TB, c Case) (res Result) {
 			if v := w.breakerTrial(run+1, c); v != "" {
 				return Result{Violation: v}
 			}
-		case "window-expiry":
+		case "window-expiry", "flaky-load":
 			if v := w.hammer(run+1, c); v != "" {
 				return Result{Violation: v}
 			}
@@ -1405,7 +1614,7 @@ func runOnce(t testing.TB, c Case) (res Result) {
 				if v := w.runStep(run+1, i+1, s); v != "" {
 					return Result{Violation: v}
 				}
-				if v := w.alive(fmt.Sprintf("after run %d step %d (%s)", run+1, i+1, s.Fault)); v != "" {
+				if v := w.alive(fmt.Sprintf("after run %d step %d (%s)", run+1, i+1, s)); v != "" {
 					return Result{Violation: v}
 				}
 			}
@@ -1415,6 +1624,14 @@ func runOnce(t testing.TB, c Case) (res Result) {
 		}
 		if v := w.gaugesZero(fmt.Sprintf("after the fault sequence (run %d)", run+1)); v != "" {
 			return Result{Violation: v}
+		}
+		if c.Swap {
+			if v := w.recoverySwapped(run + 1); v != "" {
+				return Result{Violation: v}
+			}
+			if v := w.alive(fmt.Sprintf("after the recovery probes with the roles swapped (run %d)", run+1)); v != "" {
+				return Result{Violation: v}
+			}
 		}
 		if v := w.recovery(run + 1); v != "" {
 			return Result{Violation: v}
